@@ -183,3 +183,52 @@ func vfC04Typed(c int) {
 		vfAssert("typed-rejects-other-kind", err == ErrIncorrectGeometry)
 	}
 }
+
+// ---- special values: concrete coordinates through the real number formatting and parsing ----
+// The symbolic harnesses treat a number as an opaque value with a symbolic spelling; the values
+// below are the ones whose spelling or parse is special (signed zero, %g's switch to exponent
+// form at 1e-5 / 1e21 (1e6 for the shortest form), integers around 2^31, 2^53 and 2^63, 15/16
+// digit integers, extremes and subnormals). They run concretely through MarshalString/Unmarshal
+// and the result must be bit-identical.
+var vfSpecials = []float64{
+	0, vfNegZero(), 1, -1, 0.1, 0.00001, 0.0001, 0.000011, 123456, 999999, 1000000, 1234567,
+	1e20, 1e21, 1e22, 1.7976931348623157e308, -1.7976931348623157e308, 5e-324, 2.2250738585072014e-308,
+	0.30000000000000004, 1.0 / 3, 9007199254740993, 9007199254740992, -9223372036854775808, 9223372036854775807,
+	4294967296, 2147483648, -2147483649, 123456789012345, 1234567890123456, 100000000000000, 999999999999999,
+	-0.5, 1e-7, 12345.678, -180, 179.99999999999997, 85.0511287798066,
+}
+
+func vfNegZero() float64 { z := 0.0; return -z }
+
+func vfC04Special_N(tier int) int { return len(vfSpecials) * 3 }
+func vfC04Special_Label(c int) string {
+	return "value=" + strconv.FormatFloat(vfSpecials[c/3], 'g', -1, 64) + " in " + []string{"Point", "LineString", "Collection[MultiPolygon]"}[c%3]
+}
+
+func vfC04Special(c int) {
+	v := vfSpecials[c/3]
+	var g orb.Geometry
+	switch c % 3 {
+	case 0:
+		g = orb.Point{v, 7}
+	case 1:
+		g = orb.LineString{{1, v}, {v, -v}}
+	default:
+		g = orb.Collection{orb.MultiPolygon{{{{v, 0}, {1, v}, {v, v}, {v, 0}}}}, orb.Point{-v, v}}
+	}
+	text := MarshalString(g)
+	vfReach("special")
+	got, err := Unmarshal(text)
+	vfAssert("special-parse-no-error", err == nil)
+	if err != nil {
+		return
+	}
+	vfAssert("special-structure", vfSig(got) == vfSig(g))
+	a, b := vfCoords(got), vfCoords(g)
+	vfAssert("special-ncoords", len(a) == len(b))
+	for i := range a {
+		if i < len(b) {
+			vfAssert("special-bit-identical", vfSameBits(a[i], b[i]))
+		}
+	}
+}
